@@ -29,6 +29,9 @@ class Oracle:
     def hit(self, s):
         self.shapes[s] = self.shapes.get(s, 0) + 1
 
+    def check_dump(self, sid, reply):
+        return check_dump_accounting(reply)
+
     def observe(self, op, reply):
         f = op.split()
         name, a = f[0], f[1:]
@@ -39,8 +42,10 @@ class Oracle:
             self.ts[a[0]] = int(a[1])
             self.walk.pop(a[0], None)
             return None
-        if name in ("clock", "dump", "watchdog"):
+        if name in ("clock", "watchdog"):
             return None
+        if name == "dump":
+            return self.check_dump(a[0], reply)
         sid = a[0]
         ref = self.ref[sid]
         T = self.ts[sid]
@@ -220,6 +225,54 @@ class Oracle:
                             return "scan yielded %s which was never present" % k
             return None
         return None
+
+
+def parse_dump(reply):
+    """-> list of tables: dict(cf,state,off,alloc,inuse,garbage,slots=[(hk,off,size)])"""
+    import re
+    m = re.search(r"tables=\[(.*)\] bycf=", reply)
+    tabs = []
+    if not m or not m.group(1):
+        return tabs
+    for t in m.group(1).split(";"):
+        f = t.split("/")
+        slots = []
+        body = t[t.index("{") + 1:t.index("}")]
+        if body:
+            for sl in body.split(","):
+                p = sl.split(":")
+                if len(p) < 6:
+                    slots.append((p[0], None))
+                    continue
+                hk, off = p[0].split("@")
+                kl = 0 if p[1] == "-" else len(p[1]) // 2
+                vl = 0 if p[2] == "-" else len(p[2]) // 2
+                slots.append((int(hk), int(off), 29 + kl + vl))
+        tabs.append({"cf": int(f[0]), "state": f[1], "off": int(f[2]), "alloc": int(f[3]), "inuse": int(f[4]),
+                     "garbage": int(f[5]), "slots": slots, "idx": t.rsplit("/", 1)[1]})
+    return tabs
+
+
+def check_dump_accounting(reply):
+    for t in parse_dump(reply):
+        if any(len(s) < 3 for s in t["slots"]):
+            return "table cf=%d: an index entry points to an undecodable record" % t["cf"]
+        live = sum(s[2] for s in t["slots"])
+        if t["inuse"] != live:
+            return "table cf=%d: inuse=%d but live records occupy %d bytes" % (t["cf"], t["inuse"], live)
+        if t["inuse"] + t["garbage"] != t["off"]:
+            return "table cf=%d: inuse %d + garbage %d != bytes written %d (superseded bytes not accounted as garbage)" % (
+                t["cf"], t["inuse"], t["garbage"], t["off"])
+        if t["idx"] != "idx=ok":
+            return "table cf=%d: offset index %s disagrees with the hkeys index" % (t["cf"], t["idx"])
+        last = -1
+        for (hk, off, size) in t["slots"]:
+            if off < last:
+                return "table cf=%d: overlapping records" % t["cf"]
+            last = off + size
+        if last > t["off"]:
+            return "table cf=%d: record beyond the write offset" % t["cf"]
+    return None
 
 
 class Gen:
